@@ -98,6 +98,37 @@ func NewWorld(spec WorldSpec, seed uint64) (*World, error) {
 	return w, nil
 }
 
+// SetCapacities (re)installs the simulated disk with the given per-root capacities; bytes
+// already stored count as used.
+func (w *World) SetCapacities(caps []RootSpec) {
+	w.Disk = &simos.Disk{}
+	for i, rs := range caps {
+		if i >= len(w.Roots) || rs.Reported <= 0 {
+			continue
+		}
+		real := rs.Real
+		if real <= 0 {
+			real = rs.Reported
+		}
+		w.Disk.Roots = append(w.Disk.Roots, &simos.Root{Path: w.Roots[i], Reported: rs.Reported, Real: real, Partial: rs.Partial})
+	}
+	simos.Install(w.Disk)
+}
+
+// usedBytes is the number of content bytes currently stored under root i.
+func (w *World) usedBytes(i int) int64 {
+	var n int64
+	filepath.WalkDir(w.Roots[i], func(_ string, e fs.DirEntry, err error) error {
+		if err == nil && e.Type().IsRegular() {
+			if fi, err := e.Info(); err == nil {
+				n += fi.Size()
+			}
+		}
+		return nil
+	})
+	return n
+}
+
 func (w *World) Config() config.Config {
 	return w.ConfigFor(w.DBDir, w.Roots)
 }
